@@ -6,6 +6,7 @@ package grid
 // declared size, blob present/absent, identity and zstd uploads.
 
 import (
+	"github.com/buchgr/bazel-remote/v2/cache"
 	"context"
 	"fmt"
 	"strings"
@@ -309,6 +310,9 @@ func TestC16(t *testing.T) {
 			}
 		}
 	}
+	if shard == 0 {
+		c16Backend(rep, mode)
+	}
 	for _, p := range f.takePanics() {
 		rep.Violate("C14 handler panic during C16", p, nil)
 	}
@@ -317,4 +321,96 @@ func TestC16(t *testing.T) {
 	}
 	rep.Sample(map[string]interface{}{"variants": len(variants), "compositions_of_6_into_up_to": maxParts, "example": variants[0].name})
 	_ = context.Background
+}
+
+// c16Backend: the blob exists only in a proxy backend, which reports its size
+// exactly or as unknown (-1, as the HTTP backend does for compressed storage).
+// The cache may treat that as "already exists" (early return: blob size for
+// blobs/, -1 for compressed-blobs/) or take the complete upload (committed =
+// bytes sent); either way the answer must be one of the two the protocol
+// allows and the blob must be present afterwards.
+func c16Backend(rep *vlib.Report, mode string) {
+	px := vlib.NewFakeProxy()
+	f := newFx(fxOpts{mode: mode, validateAC: true, proxy: px})
+	defer f.close()
+	for _, z := range []bool{false, true} {
+		for _, report := range []string{"exact", "unknown"} {
+			for parts := 1; parts <= 3; parts++ {
+				for _, comp := range compositions(6, parts) {
+					for _, complete := range []bool{true, false} {
+						if !complete && len(comp) == 1 {
+							continue
+						}
+						rep.Eval()
+						c16Ctr++
+						content := vlib.Bytes(fmt.Sprintf("c16/backend/%s/%d", mode, c16Ctr), 6, false)
+						hash := vlib.Sha(content)
+						st := content
+						if mode == "zstd" {
+							st = vlib.EncodeCasBlob(content, 1<<20, true)
+						}
+						px.Set(cache.CAS, hash, st, 6)
+						if report == "unknown" {
+							px.ContainsFault["cas/"+hash] = &vlib.ContainsFault{Answer: true, Size: -1, Sticky: true}
+						}
+						wire, kind := content, "blobs"
+						cc := comp
+						if z {
+							wire, kind = vlib.ZstdEncode(content), "compressed-blobs/zstd"
+							cc = make([]int, len(comp))
+							used := 0
+							for i := range comp {
+								if i == len(comp)-1 {
+									cc[i] = len(wire) - used
+								} else {
+									cc[i] = comp[i] * len(wire) / 6
+								}
+								used += cc[i]
+							}
+						}
+						name := fmt.Sprintf("uploads/%s/%s/%s/6", nextUUID(), kind, hash)
+						var msgs []c16Msg
+						pos := 0
+						for i, c := range cc {
+							m := c16Msg{data: wire[pos : pos+c], offset: int64(pos)}
+							if i == 0 {
+								m.name = name
+							}
+							pos += c
+							msgs = append(msgs, m)
+						}
+						if complete {
+							msgs[len(msgs)-1].finish = true
+						} else {
+							msgs = msgs[:1] // only the first message, no finish_write: legal only as an early return
+						}
+						res := f.bsWrite(msgs, true)
+						f.settle()
+						fm, _, _ := f.present(hash, 6)
+						id := fmt.Sprintf("mode=%s backend-only blob, backend reports size %s, %s upload messages=%v complete=%v -> ok=%v code=%s committed=%d present_after=%v", mode, report, kind, cc, complete, res.ok, res.code, res.committed, fm)
+						key := fmt.Sprintf("C16 backend-only blob (%s size) %s", report, kind)
+						early, full := int64(6), int64(len(wire))
+						if z {
+							early = -1
+						}
+						switch {
+						case res.ok && complete && res.committed != early && res.committed != full:
+							rep.Violate(key+" committed_size is neither the early-return value nor the bytes sent", fmt.Sprintf("%s (allowed: %d or %d)", id, early, full), nil)
+						case res.ok && !complete && res.committed != early:
+							rep.Violate(key+" incomplete stream acknowledged with a committed_size other than the early-return value", fmt.Sprintf("%s (allowed: %d)", id, early), nil)
+						case res.ok && !fm:
+							rep.Violate(key+" acknowledged but not present", id, nil)
+						case !res.ok && complete:
+							rep.Violate(key+" complete well-formed upload failed", id, nil)
+						default:
+							rep.Nontrivial(fmt.Sprintf("backend %v %s %v %v", z, report, cc, complete))
+						}
+					}
+				}
+			}
+		}
+	}
+	for _, p := range f.takePanics() {
+		rep.Violate("C14 handler panic during C16 (backend)", p, nil)
+	}
 }
